@@ -9,7 +9,7 @@
 From Coq Require Import NArith Bool List Lia.
 From stdpp Require Import base list option.
 From RecordUpdate Require Import RecordSet.
-From RC Require Import Hdr Machine RunInd Inv InvP SafeMain SafeProps Pass PassMain SafeFinalPropsA SafeFinalProps.
+From RC Require Import Hdr Machine RunInd Inv InvP SafeMain SafeProps Pass PassMain SafeFinalPropsA SafeFinalProps SafeFinal SafeFinalProg.
 Import ListNotations RecordSetNotations.
 Local Open Scope N_scope.
 
@@ -97,9 +97,73 @@ Proof. exact SafeFinalProps.obs_alive_slot. Qed.
 Print Assumptions C01_obs_alive_slot.
 
 (** ** Program level *)
-(* C01_safety: added by safeb *)
+(** THE safety theorem.  For every configuration [K] (with [cleaners] only together with
+    [weak-ptrs], as in Cargo.toml), every program [P] whose Drop impls respect the documented
+    contract ([wf_prog]: a Drop impl does not touch the Cc fields of the value being dropped),
+    every fuel and every list of top-level commands (in particular every prefix of a program):
+    unless the run was cut by fuel exhaustion or aborted (double panic) - the two events that
+    make the model state meaningless -, the tested invariant [inv_b] holds (every strong count
+    covers every existing handle, nothing reachable dangles, the lifecycle conjuncts), the
+    model never detected a use after free, use after drop, double drop, double free, drop of
+    an uninitialised value or failed debug assertion ([no_badU]), and the strong counts are
+    exact as long as no panic was caught. *)
+Theorem C01_safety :
+  forall (K : conf) (P : prog) (fuel : nat) (cmds : list cmd),
+  (k_clean K = true -> k_weak K = true) -> wf_prog P = true ->
+  let m := fold_left (fun m c => exec_top K P fuel c m) cmds (init K) in
+  forallb (fun e => match e with EBad Fuel _ | EBad Abort _ => false | _ => true end) (log m) = true ->
+  inv_b K [] m = true /\ no_badU m = true /\ (no_panic_yet m = true -> exact_b [] m = true).
+Proof. exact SafeFinal.safe_programs_closed. Qed.
+Print Assumptions C01_safety.
+
+(** ... and no counter underflow either (with the buffer invariant): the full [Inv.no_bad] *)
+Theorem C01_safety_no_bad :
+  forall (K : conf) (P : prog) (fuel : nat) (cmds : list cmd),
+  (k_clean K = true -> k_weak K = true) -> wf_prog P = true ->
+  let m := fold_left (fun m c => exec_top K P fuel c m) cmds (init K) in
+  forallb (fun e => match e with EBad Fuel _ | EBad Abort _ => false | _ => true end) (log m) = true ->
+  no_bad m = true.
+Proof. exact SafeFinal.safe_programs_no_bad. Qed.
+Print Assumptions C01_safety_no_bad.
+
+(** the strengthened invariant and the buffer invariant hold in every reached state *)
+Theorem C01_safety_sinv :
+  forall (K : conf) (P : prog) (fuel : nat) (cmds : list cmd),
+  (k_clean K = true -> k_weak K = true) -> wf_prog P = true ->
+  let m := fold_left (fun m c => exec_top K P fuel c m) cmds (init K) in
+  forallb (fun e => match e with EBad Fuel _ | EBad Abort _ => false | _ => true end) (log m) = true ->
+  exists b : bool, no_badU m = true /\ SInv K b [] [] m /\ (no_panic_yet m = true -> b = true) /\
+                   BufBase.Ibuf K [] m.
+Proof. exact SafeFinal.safe_programs_sinv. Qed.
+Print Assumptions C01_safety_sinv.
+
+(** in every reached state, everything reachable from the program's variables through strong
+    handles (traced or not, cleaner handles included) is allocated, alive, not being destroyed *)
+Theorem C01_program_reach_live :
+  forall (K : conf) (P : prog) (fuel : nat) (cmds : list cmd),
+  (k_clean K = true -> k_weak K = true) -> wf_prog P = true ->
+  forallb (fun e => match e with EBad Fuel _ | EBad Abort _ => false | _ => true end)
+          (log (fold_left (fun m c => exec_top K P fuel c m) cmds (init K))) = true ->
+  forall o : id, sreach_any (fold_left (fun m c => exec_top K P fuel c m) cmds (init K)) o ->
+  exists x : obj, get (fold_left (fun m c => exec_top K P fuel c m) cmds (init K)) o = Some x /\
+    o_box x = BAlloc /\ o_vst x = VLive /\
+    mem_id o (dead (fold_left (fun m c => exec_top K P fuel c m) cmds (init K))) = false.
+Proof. exact SafeFinalProg.prog_reach_live. Qed.
+Print Assumptions C01_program_reach_live.
 
 (** ** Pins *)
+Check C01_safety :
+  forall (K : conf) (P : prog) (fuel : nat) (cmds : list cmd),
+  (k_clean K = true -> k_weak K = true) -> wf_prog P = true ->
+  let m := fold_left (fun m c => exec_top K P fuel c m) cmds (init K) in
+  forallb (fun e => match e with EBad Fuel _ | EBad Abort _ => false | _ => true end) (log m) = true ->
+  inv_b K [] m = true /\ no_badU m = true /\ (no_panic_yet m = true -> exact_b [] m = true).
+Check C01_safety_no_bad :
+  forall (K : conf) (P : prog) (fuel : nat) (cmds : list cmd),
+  (k_clean K = true -> k_weak K = true) -> wf_prog P = true ->
+  let m := fold_left (fun m c => exec_top K P fuel c m) cmds (init K) in
+  forallb (fun e => match e with EBad Fuel _ | EBad Abort _ => false | _ => true end) (log m) = true ->
+  no_bad m = true.
 Check C01_reach_live :
   forall (K : conf) (E : list id) (m : machine), inv_b K E m = true ->
   forall o : id, sreach m o ->
